@@ -17,8 +17,8 @@ print(' '.join(dict.fromkeys(cs)))")
   git -C /repo apply /verif/$d/patch.diff || { echo "$sid: patch does not apply"; continue; }
   results=""
   for c in $checks; do
-    t0=$(date +%s); ./run $c ${TIER:-quick} > /tmp/recheck.log 2>&1; rc=$?; dt=$(( $(date +%s) - t0 ))
-    line=$(grep -m1 -E "^violation:" /tmp/recheck.log | cut -c1-160)
+    t0=$(date +%s); ./run $c ${TIER:-quick} > /tmp/recheck_one.log 2>&1; rc=$?; dt=$(( $(date +%s) - t0 ))
+    line=$(grep -m1 -E "^violation:" /tmp/recheck_one.log | cut -c1-160)
     echo "$sid [$c] rc=$rc ${dt}s $line"
     results="$results{\"check\": \"$c\", \"tier\": \"${TIER:-quick}\", \"exit\": $rc, \"seconds\": $dt},"
   done
